@@ -39,8 +39,8 @@ def run(rep):
         "edits of notes/annotations applied to one side with the other side compared, reaction arithmetic operands unchanged)."),
         trusted=["copy.copy / copy.deepcopy / pickle (assumed)", "Model.copy: allocation by the constructors Model() / Metabolite() / Gene(None) / Reaction() / Group(id), "
                  "copy() and deepcopy() returns a NEW object (assumed contracts); set-valued fields are modelled by value; "
-                 "Group.add_members by an ASSUMED summary at its call site in Model.copy (Reaction.update_genes_from_gpr: its contract "
-                 "proved under C02 is applied there, call-site lemmas obliged); a copy of a rule object has the same gene names", "Model.tolerance setter touches only the solver configuration (assumed contract)", "an exception inside deepcopy would leave the pointers cleared "
+                 "(Reaction.update_genes_from_gpr and Group.add_members: their contracts proved under C02 are applied at the call sites, "
+                 "call-site lemmas obliged); a copy of a rule object has the same gene names", "Model.tolerance setter touches only the solver configuration (assumed contract)", "an exception inside deepcopy would leave the pointers cleared "
                  "(no try/finally in Reaction.copy): outside the contract's normal-return case"])
 
 
